@@ -28,6 +28,13 @@ func zetaBytes(instructionCode []byte, start ProgramCounter, n ProgramCounter) [
 	return out
 }
 
+// immLen returns min(4, max(0, skipLength-used)) computed in signed arithmetic
+// (GP A.5: l = min(4, max(0, ℓ - ...))); ProgramCounter is unsigned, so the
+// subtraction must not wrap when the skip length is shorter than the operands.
+func immLen(skipLength ProgramCounter, used ProgramCounter) ProgramCounter {
+	return ProgramCounter(min(4, max(0, int64(skipLength)-int64(used))))
+}
+
 func getRegModIndex(instructionCode []byte, pc ProgramCounter) uint8 {
 	return min(12, zetaByte(instructionCode, pc+1)%16)
 }
@@ -66,7 +73,7 @@ func decodeTwoImmediates(instructionCode []byte, pc ProgramCounter, skipLength P
 		return 0, 0, fmt.Errorf("opcosde %s(%d) at pc=%d signExtend lx raise error : %w", zeta[opcode(instructionCode[pc])], opcode(instructionCode[pc]), pc, err)
 	}
 
-	lY := min(4, max(0, skipLength-lX-1))
+	lY := immLen(skipLength, lX+1)
 	decodedVy, err := utils.DeserializeFixedLength(zetaBytes(instructionCode, pc+2+lX, lY), types.U64(lY))
 	if err != nil {
 		return 0, 0, fmt.Errorf("opcosde %s(%d) at pc=%d deserialization vy raise error : %w", zeta[opcode(instructionCode[pc])], opcode(instructionCode[pc]), pc, err)
@@ -96,7 +103,7 @@ func decodeOneOffset(instructionCode []byte, pc ProgramCounter, skipLength Progr
 // returns rA, vX
 func decodeOneRegisterAndOneImmediate(instructionCode []byte, pc ProgramCounter, skipLength ProgramCounter) (uint8, uint64, error) {
 	rA := min(12, zetaByte(instructionCode, pc+1)%16)
-	lX := min(4, max(0, skipLength-1))
+	lX := immLen(skipLength, 1)
 
 	immediateData := zetaBytes(instructionCode, pc+2, lX)
 	immediate, _, err := ReadUintSignExtended(immediateData, len(immediateData))
@@ -122,7 +129,7 @@ func decodeOneRegisterAndTwoImmediates(instructionCode []byte, pc ProgramCounter
 		return 0, 0, 0, fmt.Errorf("opcode %s(%d) at pc=%d signExtend vx raise error : %w", zeta[opcode(instructionCode[pc])], opcode(instructionCode[pc]), pc, err)
 	}
 
-	lY := min(4, max(0, skipLength-lX-1))
+	lY := immLen(skipLength, lX+1)
 	decodedVY, err := utils.DeserializeFixedLength(zetaBytes(instructionCode, pcMargin, lY), types.U64(lY))
 	if err != nil {
 		return 0, 0, 0, fmt.Errorf("opcode %s(%d) at pc=%d deserialize vy raise error : %w", zeta[opcode(instructionCode[pc])], opcode(instructionCode[pc]), pc, err)
@@ -140,7 +147,7 @@ func decodeOneRegisterAndTwoImmediates(instructionCode []byte, pc ProgramCounter
 func decodeOneRegisterOneImmediateAndOneOffset(instructionCode []byte, pc ProgramCounter, skipLength ProgramCounter) (uint8, uint64, ProgramCounter, error) {
 	rA := min(12, zetaByte(instructionCode, pc+1)%16)
 	lX := ProgramCounter(min(4, (zetaByte(instructionCode, pc+1)>>4)%8))
-	lY := min(4, max(0, skipLength-lX-1))
+	lY := immLen(skipLength, lX+1)
 
 	immediateData := zetaBytes(instructionCode, pc+2, lX)
 	immediate, _, err := ReadUintSignExtended(immediateData, len(immediateData))
@@ -167,7 +174,7 @@ func decodeTwoRegisters(instructionCode []byte, pc ProgramCounter) (rD uint8, rA
 func decodeTwoRegistersAndOneImmediate(instructionCode []byte, pc ProgramCounter, skipLength ProgramCounter) (uint8, uint8, uint64, error) {
 	rA := min(12, zetaByte(instructionCode, pc+1)&15)
 	rB := min(12, zetaByte(instructionCode, pc+1)>>4)
-	lX := min(4, max(0, skipLength-1))
+	lX := immLen(skipLength, 1)
 	decodedVX, err := utils.DeserializeFixedLength(zetaBytes(instructionCode, pc+2, lX), types.U64(lX))
 	if err != nil {
 		return 0, 0, 0, fmt.Errorf("opcode %s(%d) at pc=%d deserialization error : %w", zeta[opcode(instructionCode[pc])], opcode(instructionCode[pc]), pc, err)
@@ -185,7 +192,7 @@ func decodeTwoRegistersAndOneImmediate(instructionCode []byte, pc ProgramCounter
 func decodeTwoRegistersAndOneOffset(instructionCode []byte, pc ProgramCounter, skipLength ProgramCounter) (uint8, uint8, ProgramCounter, error) {
 	rA := min(12, zetaByte(instructionCode, pc+1)%16)
 	rB := min(12, zetaByte(instructionCode, pc+1)>>4)
-	lX := min(4, max(0, skipLength-1))
+	lX := immLen(skipLength, 1)
 
 	offsetData := zetaBytes(instructionCode, pc+2, lX)
 	offset, _, err := ReadIntFixed(offsetData, len(offsetData))
@@ -202,7 +209,7 @@ func decodeTwoRegistersAndTwoImmediates(instructionCode []byte, pc ProgramCounte
 	rA := min(12, zetaByte(instructionCode, pc+1)%16)
 	rB := min(12, zetaByte(instructionCode, pc+1)>>4)
 	lX := ProgramCounter(min(4, zetaByte(instructionCode, pc+2)%8))
-	lY := min(4, max(0, skipLength-lX-2))
+	lY := immLen(skipLength, lX+2)
 
 	vXData := zetaBytes(instructionCode, pc+3, lX)
 	vX, _, err := ReadUintFixed(vXData, len(vXData))
